@@ -312,7 +312,7 @@ PROOFS = {
     "long_jump": "ext_tie_jump", "from_seed": "ext_tie_seed", "seed_from_u64": "ext_tie_seed",
     # rand_hc / rand_isaac: see the proof scripts below (bridge lemmas: Rngs/Lib/ExtTieBlock.lean, ExtTieShapes.lean)
     "hc_step_p": "ext_tie_hc_step", "hc_step_q": "ext_tie_hc_step",
-    "isaac_ind": "ext_tie_isaac_ind", "isaac_rngstep": "ext_tie_isaac_step", "isaac_mix": "ext_tie_isaac_step",
+    "core_eq": "ext_tie_core_eq", "isaac_ind": "ext_tie_isaac_ind", "isaac_rngstep": "ext_tie_isaac_step", "isaac_mix": "ext_tie_isaac_step",
 }
 
 # ---- proof scripts of the block generators.  Each is `first | fast path | generic path`: the fast path rewrites the model side
@@ -555,7 +555,7 @@ def file_consts(f, extra=None):
             consts[n] = (cty, lit_lean(v, cty))
     return consts, vals
 
-def methods_of(f, sname, skip_traits=("fmt::Debug", "PartialEq", "Eq", "::core::cmp::PartialEq", "::core::cmp::Eq", "Clone")):
+def methods_of(f, sname, skip_traits=("fmt::Debug", "Eq", "::core::cmp::Eq", "Clone")):
     ms, aliases = {}, {}
     for (trait, ty, fns, consts), types in zip(f.impls, f.impl_types):
         if ty != sname or trait in skip_traits:
@@ -624,7 +624,7 @@ def build_units_hc(repo):
     u = Unit("Hc128Core", sinfo, cm, consts, macros, prims, "Rngs.Ext.Hc128Core", aliases, vals)
     u.extern = {n: "Rngs.Ext.Hc128Fns." + n for n in ms}
     u.shape, u.seed_len, u.file = ("Hc128Core", 32), 32, "rand_hc/src/hc128.rs"
-    yield u, ["step_p", "step_q", "generate", "sixteen_steps", "init", "from_seed"]
+    yield u, ["step_p", "step_q", "generate", "sixteen_steps", "init", "from_seed", "eq"]
 
 def sig_is(u, fn, selfkind, params, ret):
     """does the translated function still have the signature the correspondence statement is written for?
@@ -659,7 +659,8 @@ def hc_theorems(u, done, skipped=None):
         done = guard(u, done, skipped, {
             "step_p": ("mut", [(N, False)] * 5, U32), "step_q": ("mut", [(N, False)] * 5, U32),
             "generate": ("mut", [(("arr", U32, 16), True)], None), "sixteen_steps": ("mut", [], None),
-            "init": (None, [(("arr", U32, 8), False)], SELF), "from_seed": (None, [(("arr", "u8", 32), False)], SELF)})
+            "init": (None, [(("arr", U32, 8), False)], SELF), "from_seed": (None, [(("arr", "u8", 32), False)], SELF),
+            "eq": ("ref", [(SELF, False)], "bool")})
     if u.name == "Hc128Fns":
         return [(f"Hc128Fns.{n}", f"Ext.Hc128Fns.{n} = Hc128.{n}", ["C02"], n) for n in ("f1", "f2") if n in done]
     E, th = "Ext.Hc128Core", []
@@ -677,6 +678,8 @@ def hc_theorems(u, done, skipped=None):
         if n is not None and len(u.sigs["init"]["params"]) == 1 and is_arr(u.sigs["init"]["params"][0][1], flat=True):
             xs = " ".join(f"s{i}" for i in range(n))
             th.append(("Hc128Core.init", f"∀ {xs}, {E}.init {xs} = Hc128.init [{', '.join(f's{i}' for i in range(n))}]", ["C02"], "hc_init"))
+    if "eq" in done:
+        th.append(("Hc128Core.eq", f"∀ a b, {E}.eq a b = Hc128.Core.beq a b", ["C10"], "core_eq"))
     if "from_seed" in done:
         th.append(("Hc128Core.from_seed", f"∀ seed, {E}.from_seed seed = Hc128.fromSeedCore seed", ["C02", "C09"], "hc_from_seed"))
     return th
@@ -733,7 +736,7 @@ def build_units_isaac(repo):
                      "read_u64_into": prim_read_into(64), "le::read_u64_into": prim_read_into(64), "@bytes_types": ()}
             u = Unit(sname, sinfo, methods, consts, macros, prims, f"Rngs.Ext.{sname}", aliases, vals)
             u.shape, u.seed_len, u.file, u.width = (sname, w), 32, f"rand_isaac/src/{fname}.rs", w
-            yield u, ["ind", "rngstep", "generate", "mix", "init", "from_seed", "seed_from_u64", "from_rng", "try_from_rng"]
+            yield u, ["ind", "rngstep", "generate", "mix", "init", "from_seed", "seed_from_u64", "from_rng", "try_from_rng", "eq"]
         except Exception as e:
             yield None, (sname, repr(e))
 
@@ -749,6 +752,7 @@ def isaac_theorems(u, done, skipped=None):
         "mix": (None, [(W, True)] * 8, None), "generate": ("mut", [(A, True)], None),
         "init": (None, [(A, False), ("u32", False)], SELF), "from_seed": (None, [(("arr", "u8", 32), False)], SELF),
         "seed_from_u64": (None, [("u64", False)], SELF),
+        "eq": ("ref", [(("named", u.name), False)], "bool"),
         "from_rng": (None, [(("named", "implRngCore"), True)], SELF),
         "try_from_rng": (None, [(("named", "R"), True)], ("named", "Result<Self,R::Error>"))})
     th = []
@@ -762,6 +766,8 @@ def isaac_theorems(u, done, skipped=None):
                f"(let o := {P}.mix ⟨a, b, c, d, e, f, g, h⟩; (o.a, o.b, o.c, o.d, o.e, o.f, o.g, o.h))", ["C03"])
     add("generate", f"∀ st results, {E}.generate st results = Isaac.generate {P} st results", ["C03"])
     add("init", f"∀ mem rounds, {E}.init mem rounds = Isaac.init {P} mem rounds.toNat", ["C03"])
+    if "eq" in done:
+        th.append((f"{G}.eq", f"∀ a b, {E}.eq a b = Isaac.Core.beq a b", ["C10"], "core_eq"))
     add("from_seed", f"∀ seed, {E}.from_seed seed = Isaac.fromSeedCore{w} seed", ["C03", "C09"])
     add("seed_from_u64", f"∀ x, {E}.seed_from_u64 x = Isaac.seedFromU64Core{w} x", ["C03", "C09"])
     # the cores' from_rng / try_from_rng (the `unsafe` byte view of the seed array is the primitive rs2lean.FnTr.unsafe_fill);
